@@ -843,6 +843,144 @@ def judge(ctx, case, answers):
              stage_kind=(plan["rows"][crash][0] if crash is not None else "success"))
 
 
+FF_LOG_TEXT = FF_TEXT + ("[ warning ]\nthe bond parameters were fitted for chain lengths n in {5, 10, 20} only\n"
+                         "[ info ]\nno angle defined around {B[resname]}{B[resid]} and {++A[resid]}\n")
+
+
+def history_cases(ctx, indir, scratch):
+    """Process history WITHOUT any injected fault and WITHOUT resetting the deferred writer in between (a
+    workflow script / notebook): gen_params is called three times in one directory -- to a.itp (which exists),
+    to b.itp, to a.itp again -- with force fields of which some carry free-text [ warning ] / [ info ] messages
+    containing braces (legal; only the logging module may complain).  After every call: a call that returned
+    must satisfy the success clause for its path; a call that RAISED must have left the directory unchanged --
+    and that must still be true at the end of the sequence, apart from what later successful calls legitimately
+    did to THEIR paths."""
+    import logging
+    import polyply
+    with open(os.path.join(indir, "ex_log.ff"), "w") as handle:
+        handle.write(FF_LOG_TEXT)
+    raise_saved = logging.raiseExceptions
+    logging.raiseExceptions = False
+    sequences = [[("a.itp", "ex_log.ff"), ("b.itp", "ex.ff"), ("a.itp", "ex.ff")],
+                 [("a.itp", "ex.ff"), ("b.itp", "ex_log.ff"), ("a.itp", "ex_log.ff")]]
+    records = []
+    try:
+        for seq in sequences:
+            outdir = tempfile.mkdtemp(dir=scratch)
+            populate(outdir, {"a.itp": OLD, "notes.txt": "n\n"})
+            reset_writer(tempfile.mkdtemp(dir=scratch))
+            steps = []
+            for out, ff in seq:
+                before = listing(outdir)
+                error = None
+                try:
+                    polyply.gen_params(name="mol", outpath=Path(outdir) / out, inpath=[Path(indir) / ff], lib=None,
+                                       seq=["AA:2", "BB:1"])
+                except Exception as err:  # pylint: disable=broad-except
+                    error = "%s: %s" % (type(err).__name__, str(err)[:120])
+                steps.append(dict(out=out, ff=ff, before=before, after=listing(outdir), error=error))
+            records.append((seq, steps))
+            reset_writer(None)
+    finally:
+        logging.raiseExceptions = raise_saved
+    reqs, notes = [], []
+    for seq, steps in records:
+        final = steps[-1]["after"]
+        for idx, step in enumerate(steps):
+            if step["error"] is None:
+                content = next((c for p, c in step["after"] if p == ["f", step["out"]]), "")
+                reqs.append(dict(op="spec_success", before=step["before"], after=step["after"], out=step["out"],
+                                 content=content))
+                notes.append((seq, idx, "success", content))
+            else:
+                reqs.append(dict(op="spec_unchanged", before=step["before"], after=step["after"]))
+                notes.append((seq, idx, "failed-now", None))
+                # ... and at the end, leaving aside the paths later successful calls wrote to
+                later = set(s["out"] for s in steps[idx + 1:] if s["error"] is None)
+
+                def keep(rows, later=later):
+                    return [[p, c] for p, c in rows if p[1] not in later]
+                reqs.append(dict(op="spec_unchanged", before=keep(step["before"]), after=keep(final)))
+                notes.append((seq, idx, "failed-later", None))
+    answers = ctx.driver.ask(reqs) if reqs else []
+    for (seq, idx, kind, content), ans in zip(notes, answers):
+        replay = dict(stream="process-history", program="gen_params", variant="seq", sequence=seq, step=idx)
+        steps = next(st for sq, st in records if sq == seq)
+        step = steps[idx]
+        if kind == "success":
+            good = ans["holds"] and "[ moleculetype ]" in (content or "") and "[ atoms ]" in content
+            if not good:
+                ctx.oracle_fail("success-without-complete-file-or-backup",
+                                "call %d of the sequence %s (same process, writer not reset) returned normally but "
+                                "the directory is not {complete %s, previous file under the first free backup, rest "
+                                "untouched}: before %s after %s" % (idx + 1, seq, step["out"],
+                                                                    [(p, c[:20]) for p, c in step["before"]],
+                                                                    [(p, c[:20]) for p, c in step["after"]]), replay)
+        elif not ans["holds"]:
+            ctx.oracle_fail("output-touched-by-failed-run",
+                            "call %d of the sequence %s (same process, writer not reset) FAILED (%s) on a legal force "
+                            "field; %s the output directory differs from what it was before that call: before %s, %s %s"
+                            % (idx + 1, seq, step["error"],
+                               "right after it" if kind == "failed-now" else "after the later successful calls",
+                               [(p, c[:20]) for p, c in step["before"]],
+                               "after" if kind == "failed-now" else "at the end",
+                               [(p, c[:20]) for p, c in (step["after"] if kind == "failed-now" else steps[-1]["after"])]),
+                            replay)
+        ctx.tally(process_history="call %s" % ("returned" if kind == "success" else "raised"))
+        ctx.case(("process-history", json.dumps(seq), idx, kind), program="gen_params", judged="process-history:" + kind)
+
+
+def missing_dir_cases(ctx, plans, indir, scratch):
+    """The directory of the requested output path does not exist (typo, results directory not created yet) while
+    the working directory holds a file of the same base name.  No injected fault.  A run that RAISES must leave
+    the working directory unchanged; a run that RETURNS must have put the file at the requested path (and may not
+    have touched anything else)."""
+    cases = []
+    for plan in plans:
+        if plan["vname"] not in ("seq", "plain"):
+            continue
+        outdir = tempfile.mkdtemp(dir=scratch)
+        populate(outdir, {plan["out"]: OLD, "notes.txt": "n\n"})
+        reset_writer(tempfile.mkdtemp(dir=scratch))
+        before = listing(outdir)
+        target = Path(outdir) / "results_not_made" / plan["out"]
+        cwd = os.getcwd()
+        error = None
+        try:
+            os.chdir(outdir)
+            import numpy as np
+            np.random.seed(20)
+            random.seed(20)
+            plan["call"](indir, target)
+        except Exception as err:  # pylint: disable=broad-except
+            error = "%s: %s" % (type(err).__name__, str(err)[:100])
+        finally:
+            os.chdir(cwd)
+            reset_writer(None)
+        sub = os.path.join(outdir, "results_not_made")
+        made = os.path.isfile(str(target))
+        if os.path.isdir(sub):
+            shutil.rmtree(sub, ignore_errors=True)
+        cases.append((plan, before, listing(outdir), error, made))
+    answers = ctx.driver.ask([dict(op="spec_unchanged", before=b, after=a) for _, b, a, _, _ in cases]) if cases else []
+    for (plan, before, after, error, made), ans in zip(cases, answers):
+        replay = dict(stream="missing-directory", program=plan["prog"], variant=plan["vname"])
+        if error is None and not made:
+            ctx.oracle_fail("success-without-complete-file-or-backup",
+                            "%s (%s) asked to write results_not_made/%s (directory does not exist) RETURNED NORMALLY "
+                            "although nothing exists at the requested path; working directory before %s after %s"
+                            % (plan["prog"], plan["vname"], plan["out"], [(p, c[:20]) for p, c in before],
+                               [(p, c[:20]) for p, c in after]), replay)
+        if not ans["holds"]:
+            ctx.oracle_fail("output-touched-by-failed-run" if error else "success-without-complete-file-or-backup",
+                            "%s (%s) asked to write results_not_made/%s (directory does not exist; outcome: %s) changed "
+                            "the working directory, which holds a file of the same name: before %s after %s"
+                            % (plan["prog"], plan["vname"], plan["out"], error or "returned",
+                               [(p, c[:20]) for p, c in before], [(p, c[:20]) for p, c in after]), replay)
+        ctx.tally(missing_directory="%s: %s" % (plan["prog"], "raised" if error else "returned"))
+        ctx.case(("missing-directory", plan["prog"], plan["vname"]), program=plan["prog"], judged="missing-directory")
+
+
 def stale_cases(ctx, plans, table, indir, scratch):
     """Outside the property's quantifier: a failed run followed by a successful run IN THE SAME PROCESS
     without resetting the singleton writer.  Correspondence with the model only."""
@@ -987,6 +1125,8 @@ def run_plans(ctx):
                         cases.append(bench.one(plan, sname, dict(by_name[sname]), point, xdev=True))
         bench.judge_all(cases)
         stale_cases(ctx, bench.plans, bench.table, bench.indir, bench.scratch)
+        history_cases(ctx, bench.indir, bench.scratch)
+        missing_dir_cases(ctx, bench.plans, bench.indir, bench.scratch)
     finally:
         bench.close()
 
@@ -1021,6 +1161,12 @@ def replay(ctx, data):
     try:
         cases = []
         stale = False
+        if any(i.get("stream") == "missing-directory" for i in inputs):
+            missing_dir_cases(ctx, bench.plans, bench.indir, bench.scratch)
+            inputs = [i for i in inputs if i.get("stream") != "missing-directory"]
+        if any(i.get("stream") == "process-history" for i in inputs):
+            history_cases(ctx, bench.indir, bench.scratch)
+            inputs = [i for i in inputs if i.get("stream") != "process-history"]
         for item in inputs:
             plan = next((p for p in bench.plans if (p["prog"], p["vname"]) == (item["program"], item["variant"])), None)
             if plan is None:
